@@ -102,7 +102,7 @@ class C12(Prop):
 
     def gen(self, tier, rng):
         maxlen = 200 if tier == "quick" else 10000
-        reps = 7 if tier == "quick" else 60
+        reps = 7 if tier == "quick" else 120
         for rep in range(reps):
             for name in STRATS:
                 for et in INT_ETS + ["n64", "n64"]:
@@ -118,7 +118,7 @@ class C12(Prop):
                 yield mk_strategy_case(name, et, [3] if et != "n64" else [0.1], lay1(1))
                 yield mk_strategy_case(name, et, ([1] * 10 + [2]) if et != "n64" else ([0.5] * 10 + [0.75]), lay1(11))
         # GridBuilder with 1-3 columns
-        for rep in range(10 if tier == "quick" else 100):
+        for rep in range(10 if tier == "quick" else 400):
             for name in STRATS:
                 et = rng.choice(["i32", "i64", "n64", "u16"])
                 ncols = rng.range(1, 3)
